@@ -74,7 +74,14 @@ class Node:
     def __add__(self, other):
         self.neighbors[other] = None
         other.neighbors[self] = None
-        self._update()
+
+        # On a graph containing cycles, a single pass may compute the routes of a
+        # node from a neighbor that is itself updated later in the same pass.
+        # Routes only get shorter from one pass to the next, so iterate until
+        # they are stable.
+        while self._update():
+            pass
+
         return other
 
     @property
@@ -82,6 +89,8 @@ class Node:
         return [self.path(node_name)[-1] for node_name in self.routes.keys()] + [self]
 
     def _update(self, already_updated=None):
+
+        previous = {name: (r.direction, r.steps) for name, r in self.routes.items()}
 
         self.routes = {}
         for node in self.neighbors:
@@ -113,10 +122,16 @@ class Node:
 
         already_updated.add(self)
 
+        changed = previous != {
+            name: (r.direction, r.steps) for name, r in self.routes.items()
+        }
+
         # Recursive update (with lock)
         for node in self.neighbors:
             if node not in already_updated:
-                node._update(already_updated)
+                changed |= node._update(already_updated)
+
+        return changed
 
     def path(self, goal):
         """Get the shortest way between two nodes of the graph
